@@ -6,7 +6,7 @@
   Objects: `Statrs.Lemmas.IntBisect.dinv f mn mx p` is the mirror of the per-family generated
   `X.inverse_cdf` with `X.cdf d = f`, `X.min d = mn`, `X.max d = mx` (each family is tied to it by a
   lemma `X_inverse_cdf_eq_dinv`, see `Props/C05/Discrete.lean` and
-  `Draft/C05/DiscreteDefaultFamilies.lean`); the bisection inside it is the GENERATED
+  `Props/C05/DiscreteDefaultFamilies.lean`); the bisection inside it is the GENERATED
   `D.internal.integral_bisection_search`.
 
   Findings (model over ℝ, integers unbounded):
@@ -33,7 +33,7 @@
 -/
 import Statrs.Real.Simp
 import Statrs.Lemmas.IntBisect
-import Statrs.Draft.Lemmas.IntBisectMono
+import Statrs.Lemmas.IntBisectMono
 import Mathlib.Tactic
 set_option linter.unusedVariables false
 namespace Statrs.Props.C05
